@@ -163,3 +163,47 @@ Proof.
   eexists. split; [vm_compute; reflexivity|].
   repeat (split; [vm_compute; reflexivity|]). vm_compute; reflexivity.
 Qed.
+
+(* A command that cannot be created.  Step 0 (retry limit 1, continueOn.failure): the creation of its command fails in
+   the first attempt (WCreateFail: an attempt without a command), the worker waits out the retry interval with the node
+   still RUNNING - so its dependent, step 1, is refused by the loop, and the slot stays taken -, the second attempt
+   executes and succeeds; only then step 1 is launched.  (Seeded changes that made the node look failed, or kept its slot
+   after the failure, are what the C01/C15 monitors catch on the real scheduler: stream `cfail` of the driver.) *)
+Definition cf_step : stepdef :=
+  {| deps := []; cof := true; cos := false; rlimit := 1; pre := true; sfail := false; repeat := false; cfails := 1 |}.
+Definition cfail_cfg : cfg := mkcfgx [cf_step; sd [0] 0] 1 false true 0 false allh.
+Definition cfail_pre : list label := [LCommit 0; LLaunch 0; WTest 0; WCreateFail 0; WAfter 0 false].
+Definition cfail_post : list label :=
+  [WRetryWake 0] ++ launch 0 ++ [WExecEnd 0 true; WAfter 0 false; WFinish 0] ++ launch 1.
+Lemma cfail_retry_ok :
+  norepeat cfail_cfg /\ maxActive cfail_cfg = 1 /\
+  exists s1 s2, run cfail_cfg (init cfail_cfg) cfail_pre = Some s1 /\
+    st (nd s1 0) = NRunning /\ ph (nd s1 0) = PRetryWait /\ rc (nd s1 0) = 1 /\ outs (nd s1 0) = [false] /\
+    step cfail_cfg s1 (LCommit 1) = None /\ step cfail_cfg s1 (WExecStart 0) = None /\
+    run cfail_cfg s1 cfail_post = Some s2 /\
+    st (nd s2 0) = NSuccess /\ rc (nd s2 0) = 1 /\ att (nd s2 0) = 2 /\ outs (nd s2 0) = [true; false] /\
+    ph (nd s2 1) = PExec.
+Proof.
+  split; [apply norepeat_mkcfgx; reflexivity|]. split; [reflexivity|].
+  do 2 eexists. split; [vm_compute; reflexivity|].
+  repeat (split; [vm_compute; reflexivity|]). vm_compute; reflexivity.
+Qed.
+
+(* A handler that cannot be set up.  The step fails, the outcome is failed; onFailure's node cannot be set up (its
+   stdout goes into a directory that does not exist): it is marked failed and not run - and onExit still runs, last. *)
+Definition hsf_cfg : cfg :=
+  mkcfgy [sd [] 0] 0 false true 0 false allh (fun h => match h with HFailure => true | _ => false end).
+Definition hsf_pre : list label := launch 0 ++ [WExecEnd 0 false; WAfter 0 false; LExit].
+Definition hsf_post : list label := [HSetupFail HFailure; HStart HExit; HEnd HExit true; HFinish].
+Lemma handler_setup_failure_ok :
+  norepeat hsf_cfg /\
+  exists s1 s2 s3, run hsf_cfg (init hsf_cfg) hsf_pre = Some s1 /\ step hsf_cfg s1 HBegin = Some s2 /\
+    run hsf_cfg s2 hsf_post = Some s3 /\ pc s3 = LDone /\ overall hsf_cfg s1 = OError /\
+    hturns hsf_post = [HFailure; HExit] /\ hstarts hsf_post = [HExit] /\
+    hs (hst s3 HFailure) = NError /\ hatt (hst s3 HFailure) = 0 /\ hs (hst s3 HExit) = NSuccess /\
+    step hsf_cfg s2 (HStart HFailure) = None /\ overall hsf_cfg s3 = OError.
+Proof.
+  split; [intros i; unfold hsf_cfg, mkcfgy; cbn [steps]; destruct i as [|[|i]]; reflexivity|].
+  do 3 eexists. split; [vm_compute; reflexivity|]. split; [vm_compute; reflexivity|].
+  repeat (split; [vm_compute; reflexivity|]). vm_compute; reflexivity.
+Qed.
